@@ -14,9 +14,61 @@ mod browser;
 mod hostres;
 mod safety;
 
+use std::alloc::{GlobalAlloc, Layout, System};
+use std::cell::Cell;
 use std::io::{BufRead, Write};
 use std::sync::mpsc;
 use std::time::Duration;
+
+/// Allocation meter (per thread, only while switched on): the largest single request and the
+/// sum of all requests. Used by the `dec` cases: "memory proportional to the datagram size".
+pub struct Meter;
+thread_local! {
+    pub static METER_ON: Cell<bool> = const { Cell::new(false) };
+    pub static METER_MAX: Cell<usize> = const { Cell::new(0) };
+    pub static METER_SUM: Cell<usize> = const { Cell::new(0) };
+}
+fn meter_note(sz: usize) {
+    let _ = METER_ON.try_with(|on| {
+        if on.get() {
+            let _ = METER_MAX.try_with(|m| {
+                if sz > m.get() {
+                    m.set(sz)
+                }
+            });
+            let _ = METER_SUM.try_with(|m| m.set(m.get().saturating_add(sz)));
+        }
+    });
+}
+unsafe impl GlobalAlloc for Meter {
+    unsafe fn alloc(&self, l: Layout) -> *mut u8 {
+        meter_note(l.size());
+        System.alloc(l)
+    }
+    unsafe fn dealloc(&self, p: *mut u8, l: Layout) {
+        System.dealloc(p, l)
+    }
+    unsafe fn alloc_zeroed(&self, l: Layout) -> *mut u8 {
+        meter_note(l.size());
+        System.alloc_zeroed(l)
+    }
+    unsafe fn realloc(&self, p: *mut u8, l: Layout, new_size: usize) -> *mut u8 {
+        meter_note(new_size);
+        System.realloc(p, l, new_size)
+    }
+}
+#[global_allocator]
+static METER: Meter = Meter;
+
+/// Runs `f` with the meter on; returns (result, largest request, sum of requests).
+pub fn metered<T>(f: impl FnOnce() -> T) -> (T, usize, usize) {
+    METER_MAX.with(|m| m.set(0));
+    METER_SUM.with(|m| m.set(0));
+    METER_ON.with(|m| m.set(true));
+    let r = f();
+    METER_ON.with(|m| m.set(false));
+    (r, METER_MAX.with(|m| m.get()), METER_SUM.with(|m| m.get()))
+}
 
 fn run_case(line: &str) -> String {
     let toks: Vec<&str> = line.split(' ').collect();
